@@ -227,6 +227,7 @@ def _run_shard(args):
     leg = [l for l in mod.LEGS if l.name == legname][0]
     stats = Stats(legname)
     known = _known_for(mod)
+    _STATE["under"] = "raise" if getattr(mod, "HOSTILE_UNDERFLOW", False) else "ignore"
     process_state(False)
     try:
         if getattr(leg, "machine", None) is not None:
@@ -277,7 +278,8 @@ def process_state(hostile):
     warnings.resetwarnings()
     warnings.simplefilter("ignore")
     if hostile:
-        np.seterr(divide="raise", over="raise", invalid="raise", under="ignore")  # (underflow of denormal inputs is not an error anywhere)
+        # (underflow is trapped only where a check asks for it - HOSTILE_UNDERFLOW - because arithmetic on denormal *inputs* underflows legitimately)
+        np.seterr(divide="raise", over="raise", invalid="raise", under=_STATE.get("under", "ignore"))
         # `python -W error` (a test suite's setting): every warning is an exception, except the deprecation notices the library issues on purpose
         warnings.simplefilter("error")
         warnings.filterwarnings("ignore", category=DeprecationWarning)
@@ -702,6 +704,8 @@ def run_replay(modname, path):
                            env=dict(os.environ, PYTHONOPTIMIZE="2", PYTHONHASHSEED=str(body.get("hashseed") or "0"), VERIF_OPT_CHILD="1"))
         return r.returncode
     mod, broken = _import_failure(modname)
+    if mod is not None:
+        _STATE["under"] = "raise" if getattr(mod, "HOSTILE_UNDERFLOW", False) else "ignore"
     if broken or body.get("leg") == "__import__":
         if broken:
             print("replay %s: %s" % (path, broken))
